@@ -16,16 +16,18 @@ static const unsigned char tkMac[32] = { 9, 9, 9, 9, 9, 9, 9, 9, 9, 9, 9, 9, 9, 
 
 static ssl_t *g_cli2;
 static int g_rewritten;
+static unsigned char g_svMinor = 0x02; /* version listed in the appended supported_versions */
 
 /* dir 0 = client to server. Rewrites the first ClientHello: legacy_version
    0x0302 -> 0x0303 and appends supported_versions = { 0x0302 }. */
 static int rewriteClientHello(int dir, unsigned char *b, int n, void *arg)
 {
-    static const unsigned char sv[7] = { 0x00, 0x2b, 0x00, 0x03, 0x02, 0x03, 0x02 };
+    unsigned char sv[7] = { 0x00, 0x2b, 0x00, 0x03, 0x02, 0x03, 0x02 };
     int p, extLenPos, v;
     (void) arg;
     if (dir != 0 || g_rewritten || n < 50 || b[0] != 22 || b[5] != 1) { return n; }
     g_rewritten = 1;
+    sv[6] = g_svMinor;
     b[9] = 0x03; b[10] = 0x03;                 /* ClientHello.legacy_version */
     p = 11 + 32;                                /* session id */
     p += 1 + b[p];
@@ -38,6 +40,8 @@ static int rewriteClientHello(int dir, unsigned char *b, int n, void *arg)
     v = ((b[7] << 8) | b[8]) + 7; b[7] = v >> 8; b[8] = v & 0xff;       /* handshake length */
     v = ((b[3] << 8) | b[4]) + 7; b[3] = v >> 8; b[4] = v & 0xff;       /* record length */
     hexdump("rewritten ClientHello: ", b, n);
+    /* the hello now says 0x0303: use that in an RSA premaster secret too */
+    g_cli2->ourHelloVersion = v_tls_1_2;
     sslInitHSHash(g_cli2);
     sslUpdateHSHash(g_cli2, b + 5, n - 5);
     return n;
@@ -64,15 +68,16 @@ static sslSessionId_t *sidWithTicket(void)
 /* A TLS 1.1 client presents the TLS 1.2 ticket. rewrite=0: plain TLS 1.1
    ClientHello (control). rewrite=1: legacy_version 1.2 + supported_versions{1.1}.
    Returns 1 if the server resumed under TLS 1.1. */
-static int tryTicket(const psProtocolVersion_t *srvVers, int nSrvVers, int rewrite)
+static int tryTicketVer(const psProtocolVersion_t *srvVers, int nSrvVers, int rewrite, psProtocolVersion_t cliVer)
 {
     ssl_t *cli = NULL, *srv = NULL;
     sslSessOpts_t copt, sopt;
     pumpState_t st;
-    psProtocolVersion_t cliVers[1] = { v_tls_1_1 };
+    psProtocolVersion_t cliVers[1];
     sslSessionId_t *sid = sidWithTicket();
     int i, res;
 
+    cliVers[0] = cliVer; g_svMinor = (cliVer == v_tls_1_2) ? 0x03 : 0x02;
     memset(&copt, 0, sizeof(copt)); memset(&sopt, 0, sizeof(sopt));
     if (nSrvVers > 0) { matrixSslSessOptsSetServerTlsVersions(&sopt, srvVers, nSrvVers); }
     matrixSslSessOptsSetClientTlsVersions(&copt, cliVers, 1);
@@ -105,14 +110,20 @@ static int tryTicket(const psProtocolVersion_t *srvVers, int nSrvVers, int rewri
         (int) matrixSslIsResumedSession(srv),
         memcmp(g_ms, srv->sec.masterSecret, SSL_HS_MASTER_SIZE) == 0);
     res = (matrixSslIsResumedSession(srv) && st.srvDone && st.cliDone &&
-           VER_GET_RAW(matrixSslGetNegotiatedVersion(srv)) == v_tls_1_1);
+           VER_GET_RAW(matrixSslGetNegotiatedVersion(srv)) == cliVer);
+    if (!st.srvDone || !st.cliDone) { res = -1; }
     if (res)
     {
         sendApp(cli, "ping"); pump(cli, srv, &st);
-        printf("    app data over the resumed TLS 1.1 connection: '%.*s'\n", st.srvAppLen, st.srvApp);
+        printf("    app data over the resumed connection: '%.*s'\n", st.srvAppLen, st.srvApp);
     }
     matrixSslDeleteSession(cli); matrixSslDeleteSession(srv);
     return res;
+}
+
+static int tryTicket(const psProtocolVersion_t *srvVers, int nSrvVers, int rewrite)
+{
+    return tryTicketVer(srvVers, nSrvVers, rewrite, v_tls_1_1);
 }
 
 int main(void)
@@ -123,7 +134,7 @@ int main(void)
     pumpState_t st;
     psProtocolVersion_t srvVers[2] = { v_tls_1_2, v_tls_1_1 };
     psProtocolVersion_t cliVers1[1] = { v_tls_1_2 };
-    int r, violations = 0;
+    int r, violations = 0, broken = 0;
 
     if (matrixSslOpen() < 0) { return 2; }
     skeys = newServerKeys(); ckeys = newClientKeys();
@@ -153,6 +164,15 @@ int main(void)
     g_ticketLen = sid->sessionTicketLen; memcpy(g_ticket, sid->sessionTicket, g_ticketLen);
     matrixSslDeleteSession(cli); matrixSslDeleteSession(srv);
 
+    printf("1a. honest: TLS 1.2 ClientHello with the TLS 1.2 ticket, server {1.2,1.1}\n");
+    r = tryTicketVer(srvVers, 2, 0, v_tls_1_2);
+    printf("    => resumed under TLS 1.2: %d (expected 1)\n", r);
+    if (r != 1) { broken++; }
+    printf("1b. honest: legacy_version 0x0303 + supported_versions{0x0303} with the TLS 1.2 ticket, default server\n");
+    r = tryTicketVer(NULL, 0, 1, v_tls_1_2);
+    printf("    => resumed under TLS 1.2: %d (expected 1)\n", r);
+    if (r != 1) { broken++; }
+
     printf("2. control: TLS 1.1 ClientHello (legacy_version 0x0302) with the TLS 1.2 ticket, server {1.2,1.1}\n");
     r = tryTicket(srvVers, 2, 0);
     printf("    => resumed under TLS 1.1: %d (expected 0)\n", r);
@@ -174,6 +194,11 @@ int main(void)
             "version derived from legacy_version, before supported_versions is applied\n", violations);
         return 1;
     }
-    printf("no violation observed\n");
+    if (broken)
+    {
+        printf("BROKEN: %d honest ticket resumption(s) did not work\n", broken);
+        return 3;
+    }
+    printf("OK: the TLS 1.2 ticket resumes only TLS 1.2 handshakes; the other hellos got a full TLS 1.1 handshake\n");
     return 0;
 }
